@@ -27,13 +27,16 @@ func init() {
 				"'above the limit' exactly when that stamp is set and not older than the interval.",
 			NotCovered: "that the ring buffer of golibs behaves as a ring (trusted), so that R7's structure (limit+1 slots, push before read, comparison with " +
 				"the interval) yields an exact sliding window; the expiry timing of the backoff tables (temporal facts outside static reach); the allowlist's own matching.",
-			Rules: map[string]string{"C09-R18": "serveDNSMsgInternal writes nothing when the handler returns nil without a response, so a query dropped by the limiter stays unanswered (tables shared with C01-R2 and C01-R3)", "C09-R17": "every path of the rate-limiting middleware that serves a plain-DNS query has asked the global limiter (the only implementation of refuse_any and of the allowlist) first", "C09-R16": "subnets converted between the backend, the internal and the file-cache representations keep their prefix length as it is (a /0 stays a /0)", "C09-R15": "NewBackoff: request counters expire after Period, hit counters after Duration", "C09-R14": "configuration objects handed to constructors that keep them are built per server (hand-off rule shared with C15-R6)", "C09-RC": "class rules (error chains, shadowed results, character classes, crossed arguments, pool constructors, array pools, loop completeness, loop-carried buffers, replacing setters, complete clones, Grow arithmetic, pooled-buffer escape, sorted searches, fresh decode targets, per-iteration objects, whole-message copies, codec guards) over the packages this property rests on", "C09-R13": "backendpb.RateLimitSettings.toInternal: the profile's own limiter exactly when present and enabled (an empty subnet list is not a reason to fall back to the global one)", "C09-R12": "DynamicAllowlist.IsAllowed: exempt exactly when some persistent or dynamic subnet contains the address; the dynamic part is read under the lock; constructor field map", "C09-R11": "list setters (DynamicAllowlist.Update, …) replace the list: no append onto the previous contents of the same field", "C09-R1": "middleware gate tables", "C09-R2": "limiter check order, family selection, keying", "C09-R3": "profile limiter table",
+			Rules: map[string]string{"C09-R19": "the rate-limiting middleware takes the peer address through netutil.NetAddrToAddrPort, which unmaps IPv4-mapped IPv6 addresses", "C09-R18": "serveDNSMsgInternal writes nothing when the handler returns nil without a response, so a query dropped by the limiter stays unanswered (tables shared with C01-R2 and C01-R3)", "C09-R17": "every path of the rate-limiting middleware that serves a plain-DNS query has asked the global limiter (the only implementation of refuse_any and of the allowlist) first", "C09-R16": "subnets converted between the backend, the internal and the file-cache representations keep their prefix length as it is (a /0 stays a /0)", "C09-R15": "NewBackoff: request counters expire after Period, hit counters after Duration", "C09-R14": "configuration objects handed to constructors that keep them are built per server (hand-off rule shared with C15-R6)", "C09-RC": "class rules (error chains, shadowed results, character classes, crossed arguments, pool constructors, array pools, loop completeness, loop-carried buffers, replacing setters, complete clones, Grow arithmetic, pooled-buffer escape, sorted searches, fresh decode targets, per-iteration objects, whole-message copies, codec guards) over the packages this property rests on", "C09-R13": "backendpb.RateLimitSettings.toInternal: the profile's own limiter exactly when present and enabled (an empty subnet list is not a reason to fall back to the global one)", "C09-R12": "DynamicAllowlist.IsAllowed: exempt exactly when some persistent or dynamic subnet contains the address; the dynamic part is read under the lock; constructor field map", "C09-R11": "list setters (DynamicAllowlist.Update, …) replace the list: no append onto the previous contents of the same field", "C09-R1": "middleware gate tables", "C09-R2": "limiter check order, family selection, keying", "C09-R3": "profile limiter table",
 				"C09-R4": "window counter under its lock", "C09-R9": "builder wiring: the configured allowlist is the persistent part of the dynamic allowlist", "C09-R8": "the dynamic allowlist is replaced only after a successful load (a failed refresh keeps the previous allowlist)", "C09-R7": "window counter structure: the ring holds limit+1 time stamps; every event (also one that is dropped) is pushed before the oldest one is read; the event is above the limit iff the oldest kept stamp is set and within the interval", "C09-R5": "every estimated response is counted", "C09-R6": "configuration-to-limiter field map (each family's count, interval and key length under its own name)"},
 		}})
 }
 
 func runC09(c *an.Ctx) {
 	classSweep(c, "C09")
+	// ---- R19: the client's address is unmapped before it selects a bucket, an allowlist entry or a profile subnet
+	c.Floor("C09-R19", 1)
+	c09UnmappedRemote(c, "C09-R19")
 	// ---- R18: a handler that returns without writing leaves a plain-DNS query unanswered: the server adds no
 	// response of its own (tables of serveDNSMsgInternal, shared with C01-R2 / C01-R3)
 	c.Floor("C09-R18", 2)
@@ -47,7 +50,7 @@ func runC09(c *an.Ctx) {
 		c.Und("C09-R16", "prefix lengths of converted subnets", token.NoPos, "only %d prefix-length operands found in backendpb and filecachepb", n)
 	}
 	// ---- R13: a profile's own limit is used exactly when it is present and enabled, whatever its client subnets are
-	c.Floor("C09-R13", 2)
+	c.Floor("C09-R13", 3)
 	if n := sharedCodecGuards(c, "C09-R13", nil, "backendpb.", "profiledb/internal/filecachepb."); n < 5 {
 		c.Und("C09-R13", "early returns of the profile codecs", token.NoPos, "only %d early returns found", n)
 	}
@@ -73,6 +76,38 @@ func runC09(c *an.Ctx) {
 				return "the global stub for absent or disabled settings; got " + o.RetString()
 			}
 			if !strings.HasPrefix(o.Ret[0].String(), "nonnil:own(") || !strings.HasSuffix(o.Ret[0].String(), ",p4)") {
+				return "the profile's own limiter (an empty client-subnet list means all clients), sized with the response-size estimate; got " + o.RetString() + " " + o.Ret[0].Dyn
+			}
+			k := strings.TrimPrefix(strings.Split(strings.TrimPrefix(o.Ret[0].String(), "nonnil:own("), ",")[0], "&")
+			if o.Mem[k+".RPS"].String() != "p0.Rps" || o.Mem[k+".ClientSubnets"].String() != "nets(p0.ClientCidr)" {
+				return "limit and client subnets taken from the message's own fields; got RPS=" + o.Mem[k+".RPS"].String() + " subnets=" + o.Mem[k+".ClientSubnets"].String()
+			}
+			return ""
+		},
+	})
+	// the same table for the file-cache decoder: what a restart restores is what the backend sent
+	decide(c, "C09-R13", "profiledb/internal/filecachepb.(*Ratelimiter).toInternal", an.DecideCfg{
+		Dom: an.Domain{"p0": an.NilOrNot, "p0.Enabled": an.Bools},
+		OnCall: func(it *an.Interp, name string, args []an.AV) (an.AV, bool) {
+			switch {
+			case strings.HasSuffix(name, "agd.NewDefaultRatelimiter"):
+				return an.NonNil("own(" + args[0].String() + "," + args[1].String() + ")"), true
+			case strings.HasSuffix(name, "filecachepb.cidrRangeToInternal"):
+				return an.Sym("nets(" + args[0].String() + ")"), true
+			}
+			return an.AV{}, false
+		},
+		Expect: func(f an.Features, o an.AOutcome) string {
+			if len(o.Ret) != 1 {
+				return "a limiter"
+			}
+			if f.IsNil("p0") || !f.B("p0.Enabled") {
+				if o.Ret[0].Dyn == "agd.GlobalRatelimiter" {
+					return ""
+				}
+				return "the global stub for absent or disabled settings (a disabled message restored as a limiter of its own has zero RPS and drops every query); got " + o.RetString()
+			}
+			if !strings.HasPrefix(o.Ret[0].String(), "nonnil:own(") || !strings.HasSuffix(o.Ret[0].String(), ",p1)") {
 				return "the profile's own limiter (an empty client-subnet list means all clients), sized with the response-size estimate; got " + o.RetString() + " " + o.Ret[0].Dyn
 			}
 			k := strings.TrimPrefix(strings.Split(strings.TrimPrefix(o.Ret[0].String(), "nonnil:own("), ",")[0], "&")
@@ -901,4 +936,48 @@ func c09AnyRefusal(c *an.Ctx, rule string) (examined int) {
 		}
 	}
 	return examined
+}
+
+// c09UnmappedRemote: the rate-limit bucket, the allowlist and a profile's
+// client subnets are all chosen by the client's address family, so the address
+// of the peer must be unmapped first: on a dual-stack socket an IPv4 client
+// appears as ::ffff:a.b.c.d, and taken as it is every IPv4 client would share
+// one IPv6 bucket.  In the rate-limiting middleware every netip.AddrPort that
+// stands for the remote address comes from netutil.NetAddrToAddrPort (which
+// unmaps) applied to the writer's RemoteAddr.
+func c09UnmappedRemote(c *an.Ctx, rule string) {
+	const k = "dnssvc/internal/ratelimitmw.(*Middleware).Wrap$1"
+	fn := c.Fn(k)
+	key := k + " takes the client's address through netutil.NetAddrToAddrPort"
+	if fn == nil {
+		c.Und(rule, key, token.NoPos, "anchor not found")
+		return
+	}
+	c.Analysed(k)
+	n := 0
+	bad := ""
+	for _, call := range an.Calls(fn) {
+		name := an.CalleeName(call)
+		if name != "(net/netip.AddrPort).Addr" && name != "(net/netip.AddrPort).Port" {
+			continue
+		}
+		n++
+		ok := false
+		w := &an.Walker{P: c.Prog, NoFieldJoin: true, Opaque: func(*ssa.Function) bool { return true },
+			Visit: func(v ssa.Value) bool {
+				if cl, isCall := v.(*ssa.Call); isCall {
+					if strings.HasSuffix(an.CalleeName(cl), "netutil.NetAddrToAddrPort") {
+						ok = true
+					}
+					return true
+				}
+				return false
+			}}
+		w.Walk(call.Common().Args[0])
+		if !ok {
+			bad = "the address used at " + c.Pos(call.Pos()) + " does not come from netutil.NetAddrToAddrPort"
+		}
+	}
+	c.Check(n > 0 && bad == "", rule, key, fn.Pos(), fmt.Sprintf("%d uses of the remote address, each of the unmapping conversion's result", n),
+		bad+": an IPv4 client of a dual-stack listener keeps its IPv4-mapped IPv6 form and is limited, allowlisted and matched as an IPv6 client")
 }
